@@ -81,7 +81,7 @@ func atomicOne(r *vrt.Run, b *backend, rounds int) {
 		failed.Store(true)
 		r.Violation(fp, "["+b.name+"] "+msg, map[string]any{"backend": b.name})
 	}
-	for g := 0; g < 2; g++ {
+	for g := 0; g < 3; g++ {
 		wg.Add(1)
 		go func(g int) {
 			defer wg.Done()
@@ -137,6 +137,9 @@ func atomicOne(r *vrt.Run, b *backend, rounds int) {
 			}
 		}(g)
 	}
+	if b.kind == "mem" {
+		rounds *= 8 // memorydb batches are cheap; more rounds, more chances to catch a torn one
+	}
 	bt := b.kv.NewBatch()
 	for c := uint64(2); c < uint64(rounds)+2 && !failed.Load(); c++ {
 		bt.Reset()
@@ -146,15 +149,16 @@ func atomicOne(r *vrt.Run, b *backend, rounds int) {
 			bt.DeleteRange([]byte{0x00}, []byte{0xff, 0xff})
 		}
 		bt.Put([]byte{0x01, byte(c)}, enc(c))
-		if c%2 == 0 {
-			bt.Put(k1, enc(c))
-			bt.Delete([]byte{0x01, byte(c - 1)})
-			bt.Put(k2, enc(c))
-		} else {
-			bt.Put(k2, enc(c))
-			bt.Delete([]byte{0x01, byte(c - 1)})
-			bt.Put(k1, enc(c))
+		a, z := k1, k2
+		if c%2 == 1 {
+			a, z = k2, k1
 		}
+		bt.Put(a, enc(c))
+		bt.Delete([]byte{0x01, byte(c - 1)})
+		for f := byte(0); f < 8; f++ { // unrelated entries between the two witness keys
+			bt.Put([]byte{0x01, 0xff, f}, enc(c))
+		}
+		bt.Put(z, enc(c))
 		if err := bt.Write(); err != nil {
 			viol("batch-write-error:"+b.kind, err.Error())
 			break
